@@ -28,13 +28,29 @@ func (m *MonC04) Name() string    { return "C04" }
 func sharePrice(s *Snap, val, denom string) *big.Rat {
 	v := s.Vals[val]
 	if v == nil || !v.HasInfo {
-		return ratI64(1)
+		return assetPrice(s, denom)
 	}
 	S := ratDec(decAmount(v.Info.TotalDelegatorShares, denom))
 	if S.Sign() == 0 {
-		return ratI64(1)
+		return assetPrice(s, denom)
 	}
 	p := new(big.Rat).Quo(s.ValTokens(val, denom), S)
+	if ap := assetPrice(s, denom); ap.Cmp(p) > 0 {
+		p = ap
+	}
+	if p.Cmp(ratI64(1)) < 0 {
+		return ratI64(1)
+	}
+	return p
+}
+
+// assetPrice: tokens per validator share of the asset (1 when undefined or below 1).
+func assetPrice(s *Snap, denom string) *big.Rat {
+	a, ok := s.Assets[denom]
+	if !ok || a.TotalValidatorShares.IsZero() {
+		return ratI64(1)
+	}
+	p := new(big.Rat).Quo(ratInt(a.TotalTokens), ratDec(a.TotalValidatorShares))
 	if p.Cmp(ratI64(1)) < 0 {
 		return ratI64(1)
 	}
@@ -51,6 +67,14 @@ func (m *MonC04) AfterTx(o *TxOutcome) {
 	den := o.Step.Den
 	a, ok := o.Pre.Assets[den]
 	if !ok {
+		return
+	}
+	if a.TotalValidatorShares.IsZero() && a.TotalTokens.IsPositive() {
+		// recorded finding orphaned-total: a 100 % slash removed every validator share of the asset while its
+		// staked total stayed; token conversions with a zero share total return the whole total, and the next
+		// depositor is credited with it
+		rep.KnownFinding("C04", "orphaned-total", "asset %s has a staked total of %s but no validator shares (after a complete slash of its only holder): the %s by %s is issued shares against an empty share total and is credited with the orphaned total", den, a.TotalTokens, k, w.Name(o.Actor))
+		rep.Class("C04.known.orphaned-total")
 		return
 	}
 	tt := ratInt(a.TotalTokens)
@@ -178,6 +202,10 @@ func (m *MonC04) sumCheck(where string, idx int, s *Snap) {
 		if sum[d] == nil {
 			continue
 		}
+		if s.Assets[d].TotalValidatorShares.IsZero() && s.Assets[d].TotalTokens.IsPositive() {
+			rep.KnownFinding("C04", "orphaned-total", "asset %s has a staked total of %s but no validator shares: every remaining delegation is reported as worth the whole total", d, s.Assets[d].TotalTokens)
+			continue
+		}
 		rep.Eval("C04.reported-sum")
 		lim := new(big.Int).Add(s.Assets[d].TotalTokens.BigInt(), big.NewInt(cnt[d]))
 		// 18-digit slack at extreme magnitudes
@@ -232,7 +260,7 @@ func (m *MonC04) Probe(idx int) {
 	ain, _ := new(big.Int).SetString(a, 10)
 	rep.Eval("C04.round-trip")
 	rep.Class(fmt.Sprintf("C04.round-trip/amt%d", magClass(math.NewIntFromBigInt(ain))))
-	tol, _ := new(big.Float).SetRat(budget(new(big.Rat).Mul(ratInt(mid.Assets[den].TotalTokens), sharePrice(mid, val, den)), 0, 8)).Int(nil)
+	tol, _ := new(big.Float).SetRat(budget(new(big.Rat).Mul(ratInt(mid.Assets[den].TotalTokens), sharePrice(mid, val, den)), 0, 24)).Int(nil)
 	lim := new(big.Int).Add(ain, tol)
 	if bal.Cmp(lim) > 0 {
 		if _, ok := dustCapture(s, mid, den, pk, new(big.Rat).SetInt(ain), ratI64(1)); ok {
